@@ -376,6 +376,183 @@ def case_polygon(case):
 
 
 # ------------------------------------------------------------------------------------------
+# histories: the result of a construction depends on the object's CURRENT data only, not on what was asked of
+# it (or of the object it was derived from) before.  Engine E: a composite (2,) unit tangent vector is taken
+# through every sequence of queries / isometries / copies / item access up to the depth bound; the model
+# state (base points P and unit directions D as hyperboloid rows) is transformed alongside, and in every
+# reached state point_along and origin_to are compared with the geodesic point cosh(t) P + sinh(t) D / with (P, D).
+# ------------------------------------------------------------------------------------------
+H_QUERY_T = 0.6
+H_TS = [0.8, -1.3]
+H_ANGLE = 0.7
+H_OPS_ANY = [["pa"], ["ot"], ["an"], ["g", 0], ["g", 1], ["copy"], ["norm"]]
+H_OPS_COMPOSITE = [["set0"], ["rev"], ["get1"]]
+
+
+def lorentz(n, which):
+    """Two fixed isometries as matrices acting on column vectors (x0, x1..xn): a boost, and an
+    orientation-reversing boost * rotation * reflection."""
+    def boost(w, r):
+        w = np.asarray(w, dtype=float)
+        w = w / np.linalg.norm(w)
+        A = np.eye(n + 1)
+        A[0, 0] = math.cosh(r)
+        A[0, 1:] = A[1:, 0] = math.sinh(r) * w
+        A[1:, 1:] += (math.cosh(r) - 1.0) * np.outer(w, w)
+        return A
+    if which == 0:
+        return boost([1.0, 2.0, -1.0, 0.5, 0.3][:n], 0.9)
+    R = np.eye(n + 1)
+    c, sn = math.cos(1.1), math.sin(1.1)
+    R[1:3, 1:3] = [[c, -sn], [sn, c]]
+    R[:, n] = -R[:, n]
+    return boost([-0.4, 1.0, 0.7, -1.5, 0.2][:n], 0.6) @ R
+
+
+def case_history(hist):
+    from geometry_tools import hyperbolic as H
+    root = hist[0]
+    n = root[1]
+    units = []
+    for (k, kq, lam) in root[2:]:
+        k, kq = np.asarray(k, dtype=float), np.asarray(kq, dtype=float)
+        units.append((proj(k, lam), hyp.unit_hyperboloid(proj(k)), hyp.unit_direction(proj(k), proj(kq))))
+
+    def rows(us):
+        pr = np.stack([u[0] for u in us])
+        sg = np.where(pr[:, :1] < 0, -1.0, 1.0)
+        return pr, sg * np.stack([u[2] for u in us])
+
+    pr, vr = rows(units[:2])
+    tv = H.TangentVector(H.Point(pr), vr)
+    t = 1
+    P = np.stack([u[1] for u in units[:2]])          # model state
+    D = np.stack([u[2] for u in units[:2]])
+    earlier = []                                      # earlier model states (for the diagnosis "stale")
+    queried = False                                   # some query was made on an ancestor of the current object
+    last = "build"
+    names = []
+    for op in hist[1:]:
+        o = op[0]
+        names.append(o + ("%d" % op[1] if len(op) > 1 else ""))
+        if o == "pa":
+            tv.point_along(H_QUERY_T)
+            queried = True
+        elif o == "ot":
+            tv.origin_to()
+            queried = True
+        elif o == "an":
+            with warnings.catch_warnings():
+                warnings.simplefilter("ignore")
+                tv.angle(tv)
+            queried = True
+        else:
+            earlier.append((P.copy(), D.copy()))
+            last = o
+            if o == "g":
+                A = lorentz(n, op[1])
+                tv = H.Isometry(A.T.copy()) @ tv
+                P, D = P @ A.T, D @ A.T
+                t += 1
+            elif o == "copy":
+                tv = H.TangentVector(tv)
+            elif o == "norm":
+                tv = tv.normalized()
+            elif o == "set0":
+                spr, svr = rows(units[2:3])
+                tv[0] = H.TangentVector(H.Point(spr[0]), svr[0])
+                P, D = P.copy(), D.copy()
+                P[0], D[0] = units[2][1], units[2][2]
+                t += 1
+            elif o == "rev":
+                tv = tv[::-1]
+                P, D = P[::-1].copy(), D[::-1].copy()
+            elif o == "get1":
+                tv = tv[1]
+                P, D = P[1].copy(), D[1].copy()
+            else:
+                raise AssertionError("HARNESS: unknown op %r" % (op,))
+        t += 1
+    composite = P.ndim == 2
+    v = []
+    who = "H^%d tangent vectors %r after [%s]" % (n, [[np.asarray(u[0]).round(6).tolist(), np.asarray(u[2]).round(6).tolist()] for u in units[:2]], ", ".join(names))
+    hidden = "queried-before" if queried else "never-queried"
+    # the object's data is the model state
+    same_tv(tv, P, D, v, "history/data/after-%s" % last, who)
+    if v:
+        return {"v": v, "t": t, "key": repr(hist), "ops": [], "o": "data", "nt": len(hist) > 1}
+    for tt in H_TS:
+        x = tv.point_along(tt)
+        t += 1
+        data = np.asarray(x.proj_data)
+        want = math.cosh(tt) * P + math.sinh(tt) * D
+        if data.shape != want.shape or data.dtype.kind != "f" or not np.all(np.isfinite(data)):
+            v.append({"key": "history/point_along/type", "msg": "%s: point_along(%r) has data of shape %r: %r" % (who, tt, data.shape, data.tolist())})
+            break
+        e = float(np.max(hyp.proj_diff(data, want)))
+        if not e <= TOL:
+            stale = any(Pe.shape == P.shape and float(np.max(hyp.proj_diff(data, math.cosh(tt) * Pe + math.sinh(tt) * De))) <= TOL
+                        for (Pe, De) in earlier)
+            d_base = hyp.dist_projective(data, P)
+            v.append({"key": "history/point_along/%s/after-%s/%s" % ("stale" if stale else "wrong", last, hidden),
+                      "msg": "%s: point_along(%r) = Klein %r, the geodesic point is %r (distance from the base point %r)%s" % (
+                          who, tt, hyp.to_klein("projective", data).tolist(), hyp.to_klein("projective", want).tolist(),
+                          np.asarray(d_base).tolist(), "; it is the answer for the tangent vector of an earlier state" if stale else "")})
+            break
+    n0 = len(v)
+    img = tv.origin_to() @ H.TangentVector.get_base_tangent(n)
+    t += 3
+    same_tv(img, P, D, v, "history/origin_to/after-%s/%s" % (last, hidden), who + ": origin_to() @ base tangent")
+    # angle with a freshly built tangent vector at the same base points (same representatives), at angle H_ANGLE
+    # E: unit tangent at P orthogonal to D, the normalised projection of the spatial basis vector e_j whose
+    # projection is longest (the squared lengths of the n projections add up to >= n - 1, so it is >= 1/2)
+    cand = []
+    for j in range(1, n + 1):
+        w = np.zeros(n + 1)
+        w[j] = 1.0
+        cand.append(w + hyp.mink(w, P)[..., None] * P - hyp.mink(w, D)[..., None] * D)
+    cand = np.stack(cand)                                               # (n,) + P.shape
+    jbest = np.argmax(hyp.mink(cand, cand), axis=0)                     # P.shape[:-1]
+    E = np.take_along_axis(cand, jbest[None, ..., None], axis=0)[0]
+    nE = hyp.mink(E, E)
+    if not np.all(nE >= 0.5 - 1e-6):
+        raise AssertionError("HARNESS: no spatial basis vector has a long projection: %r" % (nE.tolist(),))
+    E = E / np.sqrt(nE)[..., None]
+    D2 = math.cos(H_ANGLE) * D + math.sin(H_ANGLE) * E
+    sg = np.where(np.asarray(tv.point)[..., :1] < 0, -1.0, 1.0)
+    tv2 = H.TangentVector(H.Point(sg * P), sg * D2)
+    with warnings.catch_warnings():
+        warnings.simplefilter("ignore")
+        ang = np.asarray(tv.angle(tv2))
+    t += 2
+    if ang.shape != P.shape[:-1] or ang.dtype.kind != "f":
+        v.append({"key": "history/angle/type", "msg": "%s: angle(...) has shape %r dtype %s" % (who, ang.shape, ang.dtype)})
+    elif not np.all(np.abs(np.cos(ang) - math.cos(H_ANGLE)) <= TOL * (1.0 + float(np.max(np.abs(P))) ** 2)):
+        v.append({"key": "history/angle/after-%s/%s" % (last, hidden),
+                  "msg": "%s: angle with the tangent vector turned by %r in the plane towards e_j, j = %r, is %r" % (
+                      who, H_ANGLE, (jbest + 1).tolist(), ang.tolist())})
+    ops = [] if v else H_OPS_ANY + (H_OPS_COMPOSITE if composite else [])
+    return {"v": v, "t": t, "key": repr(hist), "ops": ops,
+            "o": "%d/%s/%s/%s" % (n, last, hidden, "composite" if composite else "single"), "nt": len(hist) > 1}
+
+
+def history_roots(lat, dims, nconf):
+    roots = []
+    for n in dims:
+        L = lat[n]
+        N = len(L)
+        for c in range(nconf):
+            us = []
+            for j, (a, b) in enumerate(((3 * c + 1, 3 * c + 2), (5 * c + 4, 5 * c + 7), (7 * c + 3, 7 * c + 9))):
+                a, b = a % N, b % N
+                if a == b:
+                    b = (b + 1) % N
+                us.append([L[a], L[b], REPS[(c + j) % 4]])
+            roots.append([["root", n] + us])
+    return roots
+
+
+# ------------------------------------------------------------------------------------------
 def run(ctx):
     q = ctx.quick
     seed = ctx.seed
@@ -435,3 +612,17 @@ def run(ctx):
     ctx.product("regular-polygons", "checks.c13:case_polygon", poly, chunk=2,
                 domains={"n_sides": "3..12", "angle fractions of (n-2)pi/n": [0.1, 0.3, 0.5, 0.7, 0.9], "radii": [0.3, 1.0, 2.5],
                          "dimension": [2, 3] if q else [2, 3, 4, 5]})
+
+    hdepth = 3
+    roots = history_roots(lat, dims, 3 if q else 8)
+    ctx.bfs("histories", "checks.c13:case_history", roots, depth=hdepth, chunk=32,
+            domains={"dimensions": dims, "root configurations per dimension": 3 if q else 8, "depth": hdepth,
+                     "ops": H_OPS_ANY + H_OPS_COMPOSITE,
+                     "op meaning": {"pa": "query point_along(%r), result discarded" % H_QUERY_T, "ot": "query origin_to(), result discarded", "an": "query angle(tv), result discarded",
+                                    "g": "tv = g @ tv for a boost (0) / an orientation-reversing isometry (1)", "copy": "tv = TangentVector(tv)",
+                                    "norm": "tv = tv.normalized()", "set0": "tv[0] = a third tangent vector", "rev": "tv = tv[::-1]", "get1": "tv = tv[1]"},
+                     "state": "composite (2,) unit tangent vector (single after get1); no merging of histories (key = history)",
+                     "checked in every state": "object data, point_along(t) for t in %r, origin_to() @ base tangent, angle with a fresh tangent vector turned by %r" % (H_TS, H_ANGLE)})
+    ctx.assume("histories: all tangent vectors are unit and stay unit (isometries, copies, item access); base points reach "
+               "hyperbolic distance <= ~4 from the origin after three isometries")
+    ctx.tolerances["histories"] = "1e-9 projective difference on Euclidean-normalised rows / 1e-9*(1+|D|) on directions (measured <= 1e-12)"
